@@ -228,6 +228,68 @@ pub fn cmd_once(args: &Args) -> J {
         }
         metas.push(desc);
     }
+    // Tight races: the election window of `run_once` is a few instructions wide, and threads
+    // released by a blocking barrier arrive microseconds apart.  Here four callers spin on one
+    // atomic and call the moment it flips, over tiny blocks (the sequential path: the second
+    // execution, if any, replays the block), round after round.
+    let tight_rounds = args.num("tight-rounds", cases * 6) as usize;
+    let mut tight_done = 0usize;
+    {
+        let mut block = blocks::gen_family(&mut rng, "conf", 1);
+        block.disable_nonce_check = true;
+        let expected = world::oracle(&block);
+        for round in 0..tight_rounds {
+            let scheduler = Scheduler::new_with_runtime_config(
+                block.cfg(),
+                block.env.clone(),
+                Arc::new(block.txs.clone()),
+                ParallelState::new(block.db.clone(), true, false),
+                None,
+                GrevmConfig { concurrency_level: 2, force_sequential: false, min_parallel_txs: 8, delegated_safety: block.safety },
+            );
+            let entries = [Entry::Fallback, Entry::Execute, Entry::Fallback, Entry::Execute];
+            let go = std::sync::atomic::AtomicUsize::new(0);
+            let results: Mutex<Vec<(usize, Result<(), (usize, String)>)>> = Mutex::new(Vec::new());
+            std::thread::scope(|s| {
+                for (t, e) in entries.iter().enumerate() {
+                    let (go, results, scheduler) = (&go, &results, &scheduler);
+                    s.spawn(move || {
+                        go.fetch_add(1, std::sync::atomic::Ordering::AcqRel);
+                        while go.load(std::sync::atomic::Ordering::Acquire) < 4 {
+                            std::hint::spin_loop();
+                        }
+                        let r = match e {
+                            Entry::Execute => scheduler.execute(),
+                            Entry::Parallel(w) => scheduler.parallel_execute(Some(*w)),
+                            Entry::Fallback => scheduler.fallback_sequential(),
+                        }
+                        .map_err(|e| world::render_grevm_err(&e));
+                        results.lock().unwrap().push((t, r));
+                    });
+                }
+            });
+            tight_done += 1;
+            calls_total += 4;
+            let results = results.into_inner().unwrap();
+            let (outcomes, mut state) = scheduler.take_result_and_state();
+            let bundle = state.parallel_take_bundle(BundleRetention::Reverts);
+            let winners: Vec<_> = results.iter().filter(|(_, r)| !matches!(r, Err((_, m)) if m.contains(ONCE))).collect();
+            let problem = if winners.len() != 1 {
+                Some(format!("{} of 4 spinning callers were elected (results in completion order: {:?})", winners.len(), results))
+            } else {
+                let actual = RunResult { outcomes, status: winners[0].1.clone(), bundle };
+                world::compare_runs(&expected, &actual).map(|d| format!("after the race the scheduler does not hold one in-order execution: {d}"))
+            };
+            if let Some(p) = problem {
+                divergences.push(J::obj(vec![
+                    ("kind", J::s("oracle")),
+                    ("detail", J::s(format!("tight race round {round} (one-transaction block, nonce check off, callers fallback/execute/fallback/execute released by a spin barrier): {p}"))),
+                    ("txs", J::Arr(block.desc.iter().map(|d| J::s(d.clone())).collect())),
+                ]));
+                break;
+            }
+        }
+    }
     let mut ok = 0usize;
     match lean::run_gmodel(&gmodel, &session) {
         Err(e) => divergences.push(J::obj(vec![("kind", J::s("correspondence")), ("detail", J::s(e))])),
@@ -250,6 +312,7 @@ pub fn cmd_once(args: &Args) -> J {
         ("seed", J::n(seed as usize)),
         ("cases", J::n(cases as usize)),
         ("entry_point_calls", J::n(calls_total)),
+        ("tight_race_rounds", J::n(tight_done)),
         ("conforming", J::n(ok)),
         ("distinct_nontrivial", J::n(metas.iter().collect::<std::collections::BTreeSet<_>>().len())),
         ("modes", J::Obj(mode_hist.into_iter().map(|(k, v)| (k.to_owned(), J::n(v as usize))).collect())),
